@@ -94,7 +94,7 @@ def build(rng, cands, k=1, n_each=100, tagged=None, dialect=None, opts=None, int
             names[e['ci']] = conn_name(len(names))
     # creation times on the stream clock (lifespans are differences on the stream clock)
     return {'entries': entries, 'sims': sims, 'dialect': dialect, 'names': names, 'tags': tags, 'sides': side,
-            'strategy': strategy, 'k': k}
+            'strategy': strategy, 'k': k, 'monotonic': not ((opts or {}).get('backsteps') or (opts or {}).get('wrap'))}
 
 
 def stream_created_times(st):
